@@ -873,7 +873,7 @@ func (vc *VC) frameObligations(st *State, reach string) {
 		var conj []string
 		switch {
 		case strings.HasPrefix(n, "E."):
-			conj = append(conj, fmt.Sprintf("(< %s alloc!0)", r), fmt.Sprintf("(>= %s 0)", r))
+			conj = append(conj, fmt.Sprintf("(< (base %s) alloc!0)", r), fmt.Sprintf("(>= (base %s) 0)", r))
 		case strings.HasPrefix(n, "GH."):
 		default:
 			conj = append(conj, fmt.Sprintf("(< (base %s) alloc!0)", r), fmt.Sprintf("(>= (base %s) 0)", r))
